@@ -198,10 +198,9 @@ def parse_body(name, body, params):
     if m:
         return ".install %s %s %s %s %s" % (lean_str(m.group(1)), lean_str(m.group(2)), args_list(m.group(3), params),
                                             lean_str(m.group(4)), args_list(m.group(5), params))
-    want = norm("""while (comparatorList_) { MockCFunctionComparatorNode *next = comparatorList_->next_; delete comparatorList_;
-        comparatorList_ = next; } while (copierList_) { MockCFunctionCopierNode *next = copierList_->next_; delete copierList_;
-        copierList_ = next; } currentMockSupport->removeAllComparatorsAndCopiers();""")
-    if b == want:
+    # the node-freeing loops are extracted structurally (`remove_all_loops`); here only the overall shape is required:
+    # one or more brace-free `while (list) { ... }` loops, then the C++ call
+    if re.match(r"^(?:while\(\w+\)\{[^{}]*\})+currentMockSupport->removeAllComparatorsAndCopiers\(\);$", b):
         return ".removeAll"
     m = re.match(r'^currentMockSupport=&mock\((""|\w+),&failureReporterForC\);return&gMockSupport;$', b)
     if m:
@@ -336,6 +335,83 @@ def adaptor_call(src, method):
         lean_str(method), lean_str(mm.group(2)), ", ".join(order), lean_str(wrap))
 
 
+def remove_all_loops(src):
+    """the loops of removeAllComparatorsAndCopiers_c as statement lists (names of locals are not kept)"""
+    body = norm(function_body(src, r"static\s+void\s+removeAllComparatorsAndCopiers_c\s*\(\s*\)\s*\{"))
+    loops = []
+    for m in re.finditer(r"while\((\w+)\)\{([^{}]*)\}", body):
+        local, stmts = None, []
+        for st in [x.strip() for x in m.group(2).split(";") if x.strip()]:
+            mm = re.match(r"^\w+ ?\* ?(\w+)=(\w+)->(\w+)$", st)
+            if mm:
+                local = mm.group(1)
+                stmts.append(".loadNext %s %s" % (lean_str(mm.group(2)), lean_str(mm.group(3)))); continue
+            mm = re.match(r"^delete (\w+)$", st)
+            if mm:
+                stmts.append(".delete %s" % lean_str(mm.group(1))); continue
+            mm = re.match(r"^(\w+)=(\w+)$", st)
+            if mm and local is not None and mm.group(2) == local:
+                stmts.append(".advance %s" % lean_str(mm.group(1))); continue
+            stmts.append(".other %s" % lean_str(st))
+        loops.append("{ cond := %s, body := [%s] }" % (lean_str(m.group(1)), ", ".join(stmts)))
+    if not loops:
+        raise TranslateError("removeAllComparatorsAndCopiers_c: no node-freeing loop found")
+    return loops
+
+
+def node_ctor(src, cls):
+    """`cls(T1 p1, ...) : m1(e1), ... {}`: parameter names and member initialisers of an adaptor node class"""
+    m = re.search(r"\b%s\s*\(([^)]*)\)\s*:\s*([^{}]*)\{\s*\}" % re.escape(cls), src)
+    if not m:
+        raise TranslateError("constructor with initialiser list not found: " + cls)
+    params = [parse_param(p)[0] for p in split_top(m.group(1))]
+    inits = []
+    for i in split_top(m.group(2)):
+        mm = re.match(r"^(\w+)\s*\((.*)\)$", i.strip(), re.S)
+        if not mm:
+            raise TranslateError("cannot parse member initialiser of %s: %s" % (cls, i))
+        inits.append((mm.group(1), norm(mm.group(2))))
+    return "{ cls := %s, params := [%s], inits := [%s] }" % (
+        lean_str(cls), ", ".join(lean_str(p) for p in params),
+        ", ".join("(%s, %s)" % (lean_str(a), lean_str(b)) for a, b in inits))
+
+
+def list_heads(src):
+    """`static Node* list_ = init;` of the two adaptor lists"""
+    out = []
+    for var in ("comparatorList_", "copierList_"):
+        m = re.search(r"static\s+(\w+)\s*\*\s*%s\s*=\s*(\w+)\s*;" % var, src)
+        if not m:
+            raise TranslateError("definition of the list head not found: " + var)
+        out.append("(%s, %s, %s)" % (lean_str(var), lean_str(m.group(1)), lean_str(m.group(2))))
+    return out
+
+
+def reporter_desc(cls, body):
+    m = re.match(r"^if\((.*?)\)getTestToFail\(\)->(\w+)\(failure,(\w+)\((\w+)\)\);$", body)
+    if not m or m.group(1).count("(") != m.group(1).count(")"):
+        return "{ cls := %s, guard := \"?\", callee := \"?\", termClass := \"?\", termArg := %s }" % (lean_str(cls), lean_str("other:" + body))
+    return "{ cls := %s, guard := %s, callee := %s, termClass := %s, termArg := %s }" % (
+        lean_str(cls), lean_str(m.group(1)), lean_str(m.group(2)), lean_str(m.group(3)), lean_str(m.group(4)))
+
+
+def term_desc(cls, body):
+    m = re.match(r"^if\((\w+)\)(\w+)\(\);UtestShell::(\w+)\(\)\.exitCurrentTest\(\);$", body)
+    if not m:
+        return "{ cls := %s, crashGuard := \"?\", crashCall := \"?\", exitVia := %s }" % (lean_str(cls), lean_str("other:" + body))
+    return "{ cls := %s, crashGuard := %s, crashCall := %s, exitVia := %s }" % (
+        lean_str(cls), lean_str(m.group(1)), lean_str(m.group(2)), lean_str(m.group(3)))
+
+
+def mock_call_desc(name, body):
+    """`currentMockSupport = &mock(scope [, reporter]); return &gMockSupport;` — the reporter argument may be missing"""
+    m = re.match(r"^currentMockSupport=&mock\(([^,()]*)(?:,([^()]*))?\);return&gMockSupport;$", norm(body))
+    if not m:
+        raise TranslateError("%s does not select a MockSupport with mock(...): %s" % (name, norm(body)))
+    return "{ fwd := %s, scopeArg := %s, reporter := %s }" % (
+        lean_str(name), lean_str(m.group(1)), "none" if m.group(2) is None else "some " + lean_str(m.group(2)))
+
+
 def method_body(src, regex):
     return norm(function_body(src, regex))
 
@@ -414,6 +490,28 @@ def extract():
         "(%s, %s)" % (lean_str(a), b) for a, b in getter_shapes(act, "MockCheckedActualCall"))
     t += "/-- operand order of the adaptor nodes: which parameter of the C++ virtual goes to which argument of the C function -/\n"
     t += "def adaptors : List AdaptorCall := [\n  %s]\n\n" % ",\n  ".join(adaptor_call(src, m) for m in ("isEqual", "valueToString", "copy"))
+    t += "/-- the node-freeing loops of removeAllComparatorsAndCopiers_c, in source order -/\n"
+    t += "def removeAllLoops : List NLoop := [\n  %s]\n" % ",\n  ".join(remove_all_loops(src))
+    t += "/-- constructors of the two adaptor node classes -/\n"
+    t += "def nodeCtors : List NodeCtor := [\n  %s]\n" % ",\n  ".join(
+        node_ctor(src, c) for c in ("MockCFunctionComparatorNode", "MockCFunctionCopierNode"))
+    t += "/-- the two list heads: (variable, node class, initial value) -/\n"
+    t += "def listHeads : List (String × String × String) := [%s]\n\n" % ", ".join(list_heads(src))
+    t += "/-- how mock_c / mock_scope_c select the MockSupport: scope argument and failure reporter argument -/\n"
+    t += "def mockCalls : List MockCallDesc := [\n  %s]\n" % ",\n  ".join(mock_call_desc(n, defs[n][1]) for n in ("mock_c", "mock_scope_c"))
+    t += "/-- failTest of the C failure reporter and of the C++ MockFailureReporter -/\n"
+    t += "def reporters : List ReporterDesc := [\n  %s]\n" % ",\n  ".join([
+        reporter_desc("MockFailureReporterForInCOnlyCode", shapes["cReporterFailTest"]),
+        reporter_desc("MockFailureReporter", shapes["cppReporterFailTest"])])
+    t += "/-- exitCurrentTest of the two terminator classes -/\n"
+    t += "def terminators : List TermDesc := [\n  %s]\n" % ",\n  ".join([
+        term_desc("MockFailureReporterTestTerminatorForInCOnlyCode", shapes["cTerminatorExit"]),
+        term_desc("MockFailureReporterTestTerminator", shapes["cppTerminatorExit"])])
+    m_static = re.search(r"static\s+(\w+)\s+failureReporterForC\s*;", src)
+    if not m_static:
+        raise TranslateError("static failureReporterForC not found")
+    t += "/-- class of the static `failureReporterForC` -/\n"
+    t += "def cReporterClass : String := %s\n\n" % lean_str(m_static.group(1))
     t += "/-- normalised bodies of the adaptor nodes, the C failure reporter and what they are compared with -/\n"
     t += "def shapes : List (String × String) := [\n  %s]\n" % ",\n  ".join(
         "(%s, %s)" % (lean_str(k), lean_str(v)) for k, v in shapes.items())
